@@ -159,6 +159,80 @@ def tie_b_sc(ctx):
     return [("Sodium.C07Reduce (scalar limb code)", "the model regenerated from the current source no longer satisfies the proofs:\n" + (first.group(0) if first else log[-1500:]))]
 
 
+def tie_b_regen(ctx, label, cmd, target_rel, module, theorems, pinned_re=None):
+    """Generic Tie B for a GENERATED model file: `cmd(outpath)` regenerates it from /repo's current source into a scratch file. Identical text:
+    the theorems re-checked by this run's lake build are about the code as it is. Different text: lines matching `pinned_re` (source
+    fingerprints of hand-transcribed neighbours) that differ are reported (the hand transcription no longer matches); for the rest the
+    regenerated file is put in place, `module` (the theorems) is re-built against it and the committed file restored. -> [(name, log)]"""
+    import fcntl
+    gen = os.path.join(ctx.scratch, "regen-" + os.path.basename(target_rel))
+    target = os.path.join(LEAN, target_rel)
+    try:
+        p = cmd(gen)
+    except Exception as e:  # generator crashed
+        return [("translator", "%s: generator failed on the current source: %s" % (label, e))]
+    for t in theorems:
+        ctx.obligations.append({"theorem": t + " [model regenerated from the source: %s]" % label, "axioms": ["propext", "Classical.choice", "Quot.sound"]})
+    if p is not None and p.returncode != 0:
+        ctx.discharged = len(ctx.obligations) - len(theorems)
+        return [("translator", "%s: the generator no longer recognises the source:\n%s" % (label, (p.stdout + p.stderr)[-1500:]))]
+    new, old = open(gen).read(), open(target).read()
+    if new == old:
+        ctx.discharged = len(ctx.obligations)
+        return []
+    out = []
+    if pinned_re is not None:
+        po = dict(re.findall(pinned_re, old)); pn = dict(re.findall(pinned_re, new))
+        ch = sorted(k for k in set(po) | set(pn) if po.get(k) != pn.get(k))
+        if ch:
+            out.append(("transcription of " + ", ".join(ch), "%s: the text of these hand-transcribed source files differs from the text the Lean model was written from "
+                        "(pinned %s, now %s): the theorems no longer cover the code that exists" % (label, [po.get(k) for k in ch], [pn.get(k) for k in ch])))
+        strip = lambda s: re.sub(pinned_re, "", s)
+        if strip(new) == strip(old):
+            ctx.discharged = len(ctx.obligations) - len(theorems)
+            return out
+    with open(os.path.join(LEAN, ".lake-lock"), "w") as lk:
+        fcntl.flock(lk, fcntl.LOCK_EX)
+        try:
+            shutil.copy(gen, target)
+            q = subprocess.run(["lake", "build", "+" + module], cwd=LEAN, capture_output=True, text=True, timeout=3600)
+        finally:
+            open(target, "w").write(old)
+            subprocess.run(["lake", "build", "+" + module], cwd=LEAN, capture_output=True, text=True)
+    if q.returncode == 0 and not out:
+        ctx.discharged = len(ctx.obligations)
+        ctx.stats["regenerated_differs_but_proved:" + label] = True
+        return []
+    if q.returncode != 0:
+        log = q.stdout + q.stderr
+        first = re.search(r"error: [^\n]*\.lean:\d+:\d+:[^\n]*(\n[^\n]*){0,6}", log)
+        out.append((module, "%s: the model regenerated from the current source no longer satisfies the proofs:\n%s" % (label, first.group(0) if first else log[-1500:])))
+    ctx.discharged = len(ctx.obligations) - len(theorems)
+    return out
+
+
+def simd_check(ctx, name, cfile, cflags, leanfile, via_stdin):
+    """Validation of the TRUSTED intrinsic semantics of a SIMD model against this CPU: a C program prints each intrinsic's output on pseudo-random
+    inputs, the Lean definitions recompute every line. A mismatch means the model's reading of the Intel SDM is wrong: BROKEN-CHECK (machinery)."""
+    d = os.path.join(LEAN, "simdcheck", name)
+    exe = os.path.join(ctx.scratch, "simd_" + name)
+    p = subprocess.run(["gcc", "-O1"] + cflags + ["-o", exe, os.path.join(d, cfile)], capture_output=True, text=True)
+    if p.returncode != 0:
+        raise BrokenCheck("simdcheck %s: gcc failed: %s" % (name, p.stderr[-500:]))
+    vec = subprocess.run([exe], capture_output=True, text=True).stdout
+    vf = os.path.join(ctx.scratch, "simd_%s.txt" % name)
+    open(vf, "w").write(vec)
+    if via_stdin:
+        q = subprocess.run(["lake", "env", "lean", "--run", os.path.join(d, leanfile)], cwd=LEAN, input=vec, capture_output=True, text=True)
+    else:
+        q = subprocess.run(["lake", "env", "lean", "--run", os.path.join(d, leanfile), vf], cwd=LEAN, capture_output=True, text=True)
+    tail = (q.stdout + q.stderr).strip().split("\n")[-1]
+    ctx.stats["intrinsic_semantics_vs_cpu:" + name] = tail
+    if q.returncode != 0 or not re.search(r"\b0 mismatches", tail):
+        raise BrokenCheck("simdcheck %s: the Lean intrinsic semantics disagree with the CPU: %s" % (name, (q.stdout + q.stderr)[-800:]))
+    ctx.log("intrinsic semantics (%s) validated against this CPU: %s" % (name, tail))
+
+
 def strip_comments(src):
     # remove /- ... -/ (nested not handled beyond one level, fine for our sources) and -- comments
     out = []
